@@ -272,7 +272,7 @@ pub fn sweep(job: &Job, out: &mut Out) {
                 property: prop.into(),
                 engine: "confine".into(),
                 flavour: flavour.clone(),
-                class: format!("payload-on-foreign-thread/{}", label),
+                class: if label.contains('-') && (label.ends_with("-panic") || label.ends_with("-crash") || label.ends_with("-deadlock")) { format!("confine/{}", label) } else { "payload-on-foreign-thread".to_string() },
                 what: format!("star graph with {} spokes, payload types that are neither Send nor Sync: {}", d, what),
                 case: json!({"kind":"confine","flavour":flavour,"size":d}),
                 order: d as u64,
@@ -289,7 +289,7 @@ pub fn replay(prop: &str, case: &serde_json::Value) -> Vec<Violation> {
     run(&flavour, d, &mut |label, what| found.push((label.to_string(), what)));
     for (label, what) in found {
         println!("  {}: {}", label, what);
-        out.report(Violation { property: prop.into(), engine: "confine".into(), flavour: flavour.clone(), class: format!("payload-on-foreign-thread/{}", label), what, case: case.clone(), order: d as u64 });
+        out.report(Violation { property: prop.into(), engine: "confine".into(), flavour: flavour.clone(), class: if label.contains('-') && (label.ends_with("-panic") || label.ends_with("-crash") || label.ends_with("-deadlock")) { format!("confine/{}", label) } else { "payload-on-foreign-thread".to_string() }, what, case: case.clone(), order: d as u64 });
     }
     out.viols.into_values().collect()
 }
